@@ -403,7 +403,7 @@ OP_ATTR = {"set_child": "child", "set_lazy": "lazy", "read_lazy": "lazy",
            "set_table": "table", "dict": "table", "set_group": "group", "set": "group",
            "set_grid": "grid", "grid_inner": "grid", "grid_outer": "grid",
            "set_extra": "extra", "add_trait": "extra", "read_extra": "extra", "read": None,
-           "del_attr": None}
+           "del_attr": None, "redefine": None}
 
 
 def inflight_keys(world, op):
@@ -468,6 +468,7 @@ class World:
         self.lazy_enabled = True
         self.allow_k3 = False
         self.del_enabled = False     # 'del node.trait' ops (C08 turns them on)
+        self.redefine_enabled = False
         if sut_on:
             CUR["world"] = self
         classes = classes or []
@@ -517,6 +518,7 @@ class World:
         w.lazy_enabled = self.lazy_enabled
         w.allow_k3 = self.allow_k3
         w.del_enabled = self.del_enabled
+        w.redefine_enabled = self.redefine_enabled
         w.pinned_uids = set(getattr(self, "pinned_uids", ()))
         return w
 
@@ -797,6 +799,22 @@ class World:
             if old is UNSET:
                 old = ("default",)
         return [Change("trait", mobj=m, obj=n, name=name, changed=changed, old=old, new=new)]
+
+    def op_redefine(self, op, step):
+        """``node.add_trait(name, <an equivalent definition>)`` on a name the node
+        has already: the stored value, the hooks and the handlers stay as they
+        are, nothing is announced."""
+        n, m = self._target(op)
+        name = op["name"]
+        if not self.redefine_enabled or name not in m.traits() or (name in CONTAINERS and not m.full):
+            return []
+        if self.sut_on:
+            tdef = {"value": lambda: Int(), "child": lambda: Instance(NodeBase),
+                    "children": lambda: List(Instance(NodeBase)),
+                    "table": lambda: Dict(Str, Instance(NodeBase)),
+                    "group": lambda: Set(Instance(NodeBase))}[name]()
+            self._do(step, "N%d.add_trait(%r, ...)" % (m.uid, name), n.add_trait, name, tdef)
+        return []
 
     def op_del_attr(self, op, step):
         """``del node.<link or container trait>``: back to the default.  Nothing
